@@ -346,7 +346,8 @@ Definition exec (fx : bool) (p : cfg) (s : state) (a : action) : option (state *
       match get id (calls s) with
       | Some _ => None
       | None =>
-          if negb (Z.eqb (f_st f) 0) && negb (kind_eqb k KCtl) then None
+          if id <? 0 then None   (* call ids are non-negative; origin -1 marks library-internal frames *)
+          else if negb (Z.eqb (f_st f) 0) && negb (kind_eqb k KCtl) then None
           else if (f_st f =? 0) && kind_eqb k KCtl then None
           else
             let s1 := if libkey k then w_ctr s (ctr s + 1) else s in
